@@ -1,6 +1,7 @@
 package main
 
 import (
+	"go/constant"
 	"go/token"
 	"go/types"
 	"strings"
@@ -60,6 +61,11 @@ func (x *Exec) execBuiltin(st *State, name string, c *ssa.CallCommon, args []*Va
 		}
 		n := x.D.fresh("copy.n", SInt)
 		x.assume(st, tCmp(">=", n, intLit(0)))
+		if args[0].K == VScalar && args[1].K == VScalar && args[0].T.S == SStr && args[1].T.S == SStr && x.freshBytes[args[0].T.String()] {
+			// make([]byte, len(src)) ; copy(dst, src): the freshly made buffer now holds src (buffers are immutable
+			// strings in this model; the make result is a prophecy symbol that nothing has read yet)
+			x.assume(st, tImp(tEq(x.strLen(args[0].T), x.strLen(args[1].T)), tEq(args[0].T, args[1].T)))
+		}
 		return intVal(n), nil
 	case "min", "max":
 		r := args[0]
@@ -257,6 +263,11 @@ func (x *Exec) builtinExtern(st *State, key string, c *ssa.CallCommon, a []*Val,
 		// %w wrapping: if the format literal contains %w, every error-typed variadic argument is wrapped.
 		x.wrapFacts(st, c, e)
 		return scalar(e, rt), true, nil
+	case "fmt.Sprintf":
+		if v, ok := x.sprintfModel(st, c); ok {
+			use()
+			return v, true, nil
+		}
 	case "error.Error":
 		use()
 		return str(x.ufApp("err.text", SStr, T(0))), true, nil
@@ -309,6 +320,7 @@ func (x *Exec) builtinExtern(st *State, key string, c *ssa.CallCommon, a []*Val,
 		use()
 		// (bytes, err): err == nil ==> hex(bytes) == lower(s) is NOT assumed; only hexdec determinism and hexdec(hex(x)) == x
 		x.axiomsOn["hexdec"] = true
+		x.D.declareFun("uf.hex", []Sort{SStr}, SStr)
 		b := x.ufApp("hexdec", SStr, T(0))
 		okv := x.ufApp("hexvalid", SBool, T(0))
 		e := x.D.fresh("hexerr", SErr)
@@ -317,10 +329,13 @@ func (x *Exec) builtinExtern(st *State, key string, c *ssa.CallCommon, a []*Val,
 	case "encoding/base64.(*Encoding).EncodeToString":
 		use()
 		x.axiomsOn["b64"] = true
+		x.D.declareFun("uf.b64dec", []Sort{SStr}, SStr)
+		x.D.declareFun("uf.b64valid", []Sort{SStr}, SBool)
 		return str(x.ufApp("b64", SStr, T(1))), true, nil
 	case "encoding/base64.(*Encoding).DecodeString":
 		use()
 		x.axiomsOn["b64"] = true
+		x.D.declareFun("uf.b64", []Sort{SStr}, SStr)
 		b := x.ufApp("b64dec", SStr, T(1))
 		okv := x.ufApp("b64valid", SBool, T(1))
 		e := x.D.fresh("b64err", SErr)
@@ -535,4 +550,129 @@ func (x *Exec) lockOwner(st *State, c *ssa.CallCommon) *Val {
 	fa := c.Args[0].(*ssa.FieldAddr)
 	v := x.val(st, fa.X)
 	return retype(v, fa.X.Type())
+}
+
+
+// varargValues returns the pre-boxing SSA values stored into the variadic argument array, in index order.
+func varargValues(v ssa.Value) ([]ssa.Value, bool) {
+	sl, ok := v.(*ssa.Slice)
+	if !ok {
+		if c, isC := v.(*ssa.Const); isC && c.Value == nil {
+			return nil, true // no variadic arguments
+		}
+		return nil, false
+	}
+	al, ok := sl.X.(*ssa.Alloc)
+	if !ok || al.Referrers() == nil {
+		return nil, false
+	}
+	at, ok := al.Type().(*types.Pointer).Elem().Underlying().(*types.Array)
+	if !ok {
+		return nil, false
+	}
+	out := make([]ssa.Value, at.Len())
+	for _, r := range *al.Referrers() {
+		ia, ok := r.(*ssa.IndexAddr)
+		if !ok || ia.Referrers() == nil {
+			continue
+		}
+		ic, ok := ia.Index.(*ssa.Const)
+		if !ok {
+			return nil, false
+		}
+		idx := int(ic.Int64())
+		for _, r2 := range *ia.Referrers() {
+			if s, ok := r2.(*ssa.Store); ok && idx >= 0 && idx < len(out) {
+				if mi, ok := s.Val.(*ssa.MakeInterface); ok {
+					out[idx] = mi.X
+				} else {
+					out[idx] = s.Val
+				}
+			}
+		}
+	}
+	for _, o := range out {
+		if o == nil {
+			return nil, false
+		}
+	}
+	return out, true
+}
+
+// sprintfModel: fmt.Sprintf with a constant format. When every verb is %s applied to string-sorted arguments the
+// result is the concatenation of the literal pieces and the arguments; otherwise an uninterpreted function of
+// the format and the (scalar) arguments.
+func (x *Exec) sprintfModel(st *State, c *ssa.CallCommon) (*Val, bool) {
+	if len(c.Args) != 2 {
+		return nil, false
+	}
+	fc, ok := c.Args[0].(*ssa.Const)
+	if !ok || fc.Value == nil {
+		return nil, false
+	}
+	format := constantString(fc)
+	vals, ok := varargValues(c.Args[1])
+	if !ok {
+		return nil, false
+	}
+	var terms []*Term
+	for _, v := range vals {
+		r, ok := x.regs[v]
+		if !ok {
+			if cst, isC := v.(*ssa.Const); isC {
+				r = x.constVal(cst)
+			} else {
+				return nil, false
+			}
+		}
+		if r.K != VScalar {
+			return nil, false
+		}
+		terms = append(terms, r.T)
+	}
+	// split format
+	var pieces []string
+	var verbs []byte
+	cur := ""
+	for i := 0; i < len(format); i++ {
+		if format[i] == '%' && i+1 < len(format) {
+			if format[i+1] == '%' {
+				cur += "%"
+				i++
+				continue
+			}
+			pieces = append(pieces, cur)
+			cur = ""
+			verbs = append(verbs, format[i+1])
+			i++
+			continue
+		}
+		cur += string(format[i])
+	}
+	pieces = append(pieces, cur)
+	if len(verbs) != len(terms) {
+		return nil, false
+	}
+	allS := true
+	for i, vb := range verbs {
+		if vb != 's' || terms[i].S != SStr {
+			allS = false
+		}
+	}
+	if allS {
+		t := x.strLit(pieces[0])
+		for i := range verbs {
+			t = x.strConcat(st, t, terms[i])
+			if pieces[i+1] != "" {
+				t = x.strConcat(st, t, x.strLit(pieces[i+1]))
+			}
+		}
+		return scalar(t, types.Typ[types.String]), true
+	}
+	args := append([]*Term{x.strLit(format)}, terms...)
+	return scalar(x.ufApp("sprintf", SStr, args...), types.Typ[types.String]), true
+}
+
+func constantString(c *ssa.Const) string {
+	return constant.StringVal(c.Value)
 }
